@@ -32,7 +32,7 @@ ConformsBase(v, n) ==
 
 ValidatorHolds(f, v) ==
   CASE f = "even"     -> IsIntLike(v) /\ IntVal(v) % 2 = 0
-    [] f = "nonempty" -> (v.t \in {"list", "tuple", "dict"} /\ v.e # <<>>) \/ (v.t = "set" /\ v.e # {}) \/ (v.t \in {"str", "bytes"} /\ v.s # "")
+    [] f = "nonempty" -> (v.t \in {"list", "tuple", "dict", "set"} /\ v.e # <<>>) \/ (v.t \in {"str", "bytes"} /\ v.s # "")
 
 InBounds(v, lo, hi) ==
   /\ (lo.b = "ge" => Halves(v) >= 2 * lo.x) /\ (lo.b = "gt" => Halves(v) > 2 * lo.x)
@@ -44,7 +44,7 @@ Conforms(v, T) ==
     [] T.k = "base"     -> ConformsBase(v, T.n)
     [] T.k = "user"     -> v.t = "obj" /\ SubclassOf(v.c, T.c)
     [] T.k = "list"     -> v.t = "list" /\ \A j \in 1..Len(v.e) : Conforms(v.e[j], T.a)
-    [] T.k = "set"      -> v.t = "set" /\ \A x \in v.e : Conforms(x, T.a)
+    [] T.k = "set"      -> v.t = "set" /\ \A j \in 1..Len(v.e) : Conforms(v.e[j], T.a)
     [] T.k = "dict"     -> v.t = "dict" /\ \A j \in 1..Len(v.e) : Conforms(v.e[j].k, T.a) /\ Conforms(v.e[j].v, T.b)
     [] T.k = "tuple"    -> v.t = "tuple" /\ Len(v.e) = Len(T.as) /\ \A j \in 1..Len(v.e) : Conforms(v.e[j], T.as[j])
     [] T.k = "tuplevar" -> v.t = "tuple" /\ \A j \in 1..Len(v.e) : Conforms(v.e[j], T.a)
